@@ -21,6 +21,7 @@ from dataclasses import dataclass
 from pathlib import Path
 from typing import TYPE_CHECKING
 
+from src.core.linter_utils import relative_to_root
 from src.core.types import Violation
 from src.orchestrator.language_detector import detect_language
 
@@ -71,7 +72,10 @@ class ViolationGenerator:
         """
         raw_violations = self._collect_violations(storage, rule_id, config)
         deduplicated = self._deduplicator.deduplicate_violations(raw_violations)
-        pattern_filtered = self._filter_ignored(deduplicated, config.ignore_patterns)
+        project_root = ignore_ctx.shared_parser.project_root if ignore_ctx.shared_parser else None
+        pattern_filtered = self._filter_ignored(
+            deduplicated, config.ignore_patterns, project_root
+        )
         inline_filtered = self._filter_inline_ignored(pattern_filtered, ignore_ctx.inline_ignore)
 
         # Apply shared ignore directive filtering for block and line directives
@@ -132,13 +136,17 @@ class ViolationGenerator:
         return len(blocks) >= min_occurrences
 
     def _filter_ignored(
-        self, violations: list[Violation], ignore_patterns: list[str]
+        self,
+        violations: list[Violation],
+        ignore_patterns: list[str],
+        project_root: Path | None = None,
     ) -> list[Violation]:
         """Filter violations based on ignore patterns.
 
         Args:
             violations: List of violations to filter
             ignore_patterns: List of path patterns to ignore
+            project_root: Project root; patterns describe paths inside the project
 
         Returns:
             Filtered list of violations
@@ -148,7 +156,8 @@ class ViolationGenerator:
 
         filtered = []
         for violation in violations:
-            if not self._is_ignored(violation.file_path, ignore_patterns):
+            project_path = relative_to_root(violation.file_path, project_root)
+            if not self._is_ignored(project_path, ignore_patterns):
                 filtered.append(violation)
         return filtered
 
